@@ -867,31 +867,64 @@ func c11R9(c *Ctx) {
 	info := fn.Info()
 	sig := fn.Obj.Type().(*types.Signature)
 	n := 0
-	ast.Inspect(fn.Decl.Body, func(k ast.Node) bool {
-		is, ok := k.(*ast.IfStmt)
-		if !ok {
-			return true
-		}
-		var trunk *ast.SelectorExpr
-		ast.Inspect(is.Cond, func(j ast.Node) bool {
-			if sel, ok := j.(*ast.SelectorExpr); ok && sel.Sel.Name == "Trunk" {
-				if fv := fieldOf(info, sel); fv != nil {
-					if _, isPtr := fv.Type().(*types.Pointer); isPtr {
-						trunk = sel
+	// the flag, as written in a guard: the field itself or a local that holds it
+	flagIn := func(cond ast.Expr) ast.Expr {
+		var found ast.Expr
+		ast.Inspect(cond, func(j ast.Node) bool {
+			x, ok := j.(ast.Expr)
+			if !ok || found != nil {
+				return found == nil
+			}
+			switch t := x.(type) {
+			case *ast.SelectorExpr:
+				if t.Sel.Name == "Trunk" {
+					if fv := fieldOf(info, t); fv != nil {
+						if _, isPtr := fv.Type().(*types.Pointer); isPtr {
+							found = t
+						}
+					}
+				}
+			case *ast.Ident:
+				if sel, ok := ast.Unparen(derefExpr(fn, t)).(*ast.SelectorExpr); ok && sel != ast.Expr(t) && sel.Sel.Name == "Trunk" {
+					if fv := fieldOf(info, sel); fv != nil {
+						if _, isPtr := fv.Type().(*types.Pointer); isPtr {
+							found = t
+						}
 					}
 				}
 			}
-			return true
+			return found == nil
 		})
-		if trunk == nil {
-			return true
+		return found
+	}
+	judge := func(cond ast.Expr, body []ast.Stmt) {
+		flag := flagIn(cond)
+		if flag == nil {
+			return
 		}
-		for _, r := range declReturns(is.Body) {
-			if !guardedFailure(fn, sig, r) {
-				continue
+		{
+			for _, r := range declReturns(&ast.BlockStmt{List: body}) {
+				if !guardedFailure(fn, sig, r) {
+					continue
+				}
+				n++
+				c.Require("C11.R9", "podENICreate: refusal for the trunk flag only when the flag is set", fn, r, exprString(flag)+" != nil", nil)
 			}
-			n++
-			c.Require("C11.R9", "podENICreate: refusal for the trunk flag only when the flag is set", fn, r, exprString(trunk)+" != nil", nil)
+		}
+	}
+	ast.Inspect(fn.Decl.Body, func(k ast.Node) bool {
+		switch t := k.(type) {
+		case *ast.IfStmt:
+			judge(t.Cond, t.Body.List)
+		case *ast.SwitchStmt:
+			if t.Tag == nil {
+				for _, cc := range t.Body.List {
+					cl := cc.(*ast.CaseClause)
+					for _, x := range cl.List {
+						judge(x, cl.Body)
+					}
+				}
+			}
 		}
 		return true
 	})
